@@ -205,6 +205,23 @@ pub fn evaluate(sc: &ChanSc, run: &ChanRun) -> Vec<Violation> {
     }
   }
 
+  // C05/C06 (idle-consumer variant): while a consumer sat idle, the channel had room, some
+  // producer still had work, and for the whole second half of the idle phase nothing at all
+  // moved: a sender is asleep although what it waits for has become possible.
+  for e in evs {
+    if let EvK::Pause { rounds, used, mid: Some((ms, mr, ml)), end: (es, er, el), cap, producers_done, saw_empty } = &e.k {
+      if used == rounds && !*producers_done && ms == es && mr == er && ml == el && *el < *cap {
+        vs.push(viol(
+          sc,
+          live_prop,
+          "sender_stalled_while_space_available",
+          &[("send_future_cancelled", evs.iter().any(|x| matches!(&x.k, EvK::Send { out, .. } if out.res == SRes::Cancelled)).to_string()), ("consumer_saw_empty", saw_empty.to_string())],
+          format!("receiver handle {} sat idle for {rounds} scheduling rounds; during the last {} of them len() stayed {el} < capacity {cap}, {es} tokens had been sent and {er} received, yet a producer that had not finished sent nothing", e.handle, rounds / 2),
+        ));
+      }
+    }
+  }
+
   // C02: per receiver handle, each sender handle's tokens arrive in send order
   {
     let mut last: HashMap<(u16, u16), u32> = HashMap::new();
